@@ -279,8 +279,10 @@ struct RoundCheck {
     last_yielded_seq_of_sig: HashMap<u64, u64>,
     /// stamp at which add_signal(sig) returned Ok
     ret_stamps: HashMap<u64, usize>,
-    /// last time the instance's own action ran for the signal (IT_A_STORED)
+    /// last time the instance's own action began to store for the signal (EX_STORE stamp of the action that
+    /// reached IT_A_STORED)
     last_stored: HashMap<u64, usize>,
+    store_began: HashMap<u32, Vec<usize>>,
 }
 
 impl RoundCheck {
@@ -299,6 +301,7 @@ impl RoundCheck {
             last_yielded_seq_of_sig: HashMap::new(),
             ret_stamps: HashMap::new(),
             last_stored: HashMap::new(),
+            store_began: HashMap::new(),
         }
     }
 
@@ -323,9 +326,15 @@ impl RoundCheck {
                     }
                     tot.deliveries += 1;
                 }
+                k if k == site::EX_STORE => {
+                    // an action of an iterator instance is about to store (the only instance is ours)
+                    self.store_began.entry(e.tid).or_default().push(stamp);
+                }
                 k if k == site::IT_A_STORED => {
-                    // an action of an iterator instance ran for signal a (the only instance is ours)
-                    self.last_stored.insert(e.a, stamp);
+                    // ... for signal a. The stamp that counts is the one taken BEFORE the store: the record is visible to
+                    // the consumer (and may be yielded) before this thread gets to stamp IT_A_STORED.
+                    let began = self.store_began.entry(e.tid).or_default().pop().unwrap_or(stamp);
+                    self.last_stored.insert(e.a, began);
                 }
                 k if k == kind::ACT_BEGIN => {
                     // witness: seq b delivered in the innermost open bracket of this thread
@@ -404,7 +413,7 @@ impl RoundCheck {
             let ok = self.last_yield.get(sig).map(|y| *y > *stored).unwrap_or(false);
             if !ok {
                 tot.bad09.push(format!(
-                    "stable lost state: the instance's action ran for signal {} (stamp {}) but the consumer is parked with no yield of it afterwards (last yield stamp {:?}) [{}]",
+                    "stable lost state: the instance's action ran for signal {} (its store began at stamp {}) but the consumer is parked with no yield of it afterwards (last yield stamp {:?}) [{}]",
                     sig, stored, self.last_yield.get(sig), label
                 ));
             }
